@@ -268,6 +268,31 @@ def refill_histories(ctx):
                                      rtol=1e-12, atol=1e-13)
 
 
+def homogeneity(ctx):
+    """moments(s f) = s moments(f) for scale factors over 36 orders of magnitude (an absolute "negligible" threshold on
+    f w breaks this; seeded change C14-J)."""
+    for gname in ("3d", "atom", "1d"):
+        g = make_grid(gname, ctx.seed)
+        n, dim = g.size, np.asarray(g.points).shape[1]
+        f = np.cos(np.arange(n) * 0.9) + 0.4
+        centres = np.vstack([np.asarray(g.points)[n // 3], np.full(dim, 0.3)])
+        for kind in ("cartesian", "radial", "pure", "pure-radial"):
+            if kind in ("pure", "pure-radial") and dim != 3:
+                continue
+            with warnings.catch_warnings():
+                warnings.simplefilter("ignore")
+                base = np.asarray(g.moments(3, centres, f, type_mom=kind), dtype=float)
+                for sfac in (1e-6, 1e-12, 1e-18, 1e-30, 1e6, 1e15):
+                    ctx.count(section="homogeneity")
+                    got = np.asarray(g.moments(3, centres, sfac * f, type_mom=kind), dtype=float) / sfac
+                    ctx.nontrivial(("hom", gname, kind, sfac), section="homogeneity")
+                    sc = np.max(np.abs(base)) + 1e-300
+                    if got.shape != base.shape or _gt(np.max(np.abs(got - base)), 1e-12 * sc):
+                        ctx.violation(f"homogeneity:{kind}:not-linear-in-the-function-values", f"{gname}: moments({sfac:g} f) / {sfac:g} differ from "
+                                      f"moments(f) by {np.max(np.abs(got - base)) if got.shape == base.shape else 'shape'} (scale {sc:.2e})",
+                                      {"route": "homogeneity", "grid": gname, "type": kind, "scale": sfac})
+
+
 def dtype_forms(ctx):
     """Whole-number function values and centres handed over in integer dtypes give the answer of their float copies."""
     for gname in ("3d", "atom", "2d", "1d"):
@@ -367,11 +392,14 @@ def run(ctx):
     ctx.guarded("refill", refill_histories, ctx)
     ctx.guarded("reassign", reassign_histories, ctx)
     ctx.guarded("dtypes", dtype_forms, ctx)
+    ctx.guarded("homogeneity", homogeneity, ctx)
     ctx.cov["configurations"] = len(jobs)
     ctx.exhaustive = True
 
 
 def replay(ctx, case):
+    if case.get("route") == "homogeneity":
+        return homogeneity(ctx)
     if case.get("route") == "dtypes":
         return dtype_forms(ctx)
     if case.get("route") == "reassign":
